@@ -33,6 +33,7 @@ type Obligation struct {
 	Model   map[string]string
 	Output  string
 	ReplayQ []string // terms whose values are requested from the model
+	Skip    bool     // not part of the property being checked: neither proved nor assumed in this run
 	blk     *ssa.BasicBlock
 }
 
